@@ -150,6 +150,7 @@ func TestC18(t *testing.T) {
 		if round%2 == 1 {
 			sc.Static = 0
 			sc.RandFault = &RandFault{DropPct: 10, DupPct: 10}
+			sc.Faults = [2][]Fault{cleanHS(0, nil), cleanHS(1, nil)}
 		}
 		res := RunGbnBody(t, sc, func(sim *Sim, conns [2]*gbn.GoBackNConn, res *GbnResult) {
 			var wg sync.WaitGroup
